@@ -13,18 +13,30 @@ BUILT = {
  "C05": ("metamorphic / differential property-based testing: same input through two chunkings, variants or set_chunk_size schedules, explicit position-rounding tolerance model",
          "Generated parameter sets and input streams run through two resamplers that differ in chunk size (1..4096), FixedIn/FixedOut(/InOut) variant or a mid-stream set_chunk_size schedule; the common prefix of the concatenated outputs is compared frame by frame (FFT variants bit-exactly; asynchronous ones within 8*(i+1)*ulp(idx_max)*slope, far below the 1e-3 effect of a lost, repeated or stale frame). Exploration level.",
          "constant ratio; nearest-neighbour ties get one grid step"),
+ "C07": ("property-based testing with running-total invariants (u128 integer relations for the FFT types)",
+         "Generated configurations (random ratios, coprime rate pairs, block sizes, tiny chunks, set_chunk_size schedules) driven for hundreds to 10^6 calls; after every call the totals of the returned (in,out) tuples are checked against the stated constant bound, resp. the exact integer relations for the synchronous types and the minimality of the FftFixedInOut block. Exploration level.",
+         "constant ratio for the whole stream"),
+ "C08": ("property-based testing against an analytic reference (generating polynomial / sinusoid evaluated at the documented instants)",
+         "Random polynomials of admissible degree, every basis monomial (forced for all degrees, both variants, both sample types at >= 64 fractional positions) and sinusoids are resampled; each output frame is compared with the generating function at (j+1)/ratio - 4 within 64 eps_T x sum|coeff| plus the position-rounding model, sinusoids within the exact Lagrange remainder bound. Exploration level.",
+         "analytic reference evaluated in f64"),
  "C09": ("stateful property-based testing with a counting global allocator as oracle",
          "Same generated histories; every process_into_buffer, setter, reset and getter call is bracketed by reads of a per-thread allocator counter (alloc, dealloc, realloc, alloc_zeroed); any traffic is a violation. Exploration level.",
          "allocator traffic is observed on the calling thread; rubato spawns no threads; `log` feature off"),
  "C10": ("stateful property-based testing, differential twin (used-then-reset instance vs freshly constructed instance), bit-exact comparison",
          "Generated dirty prefixes (ratio changes incl. pending ramps, chunk changes, masks, partial and failed calls), reset(), then a generated suffix on the reset instance and on a fresh twin fed identical samples: all getters and every returned count and output sample must be bit-identical. Ratios are biased to values where chunk/ratio is an integer up to rounding. Exploration level.",
          "prefix histories stay in the benign envelope (DESIGN §6)"),
+ "C11": ("differential property-based testing: n-channel instance vs n single-channel twins vs masked instance, sentinel-filled inactive outputs",
+         "Generated histories on 1..8 channels with independent noise per channel and a constant mask: the unmasked n-channel instance, the masked instance and n single-channel twins must agree bit-for-bit per channel and in all counts and getters; inactive outputs must keep their sentinel. Exploration level.",
+         "mask constant over the stream"),
  "C12": ("property-based testing of the setters against a reference predicate, boundary/ulp-neighbour generators, differential twin",
          "Generated (original, max) pairs and control calls with arguments at the documented bounds, their ulp neighbours, interior/far/special values through both ratio setters, and boundary chunk sizes; accept/reject is compared with the documented predicate evaluated in f64, rejected calls must leave the instance indistinguishable from a twin, accepted relative calls must equal the accepted absolute call. Exploration level.",
          "the documented bounds are original/max, original*max (1/max, max for the relative setter) as a caller computes them in f64"),
  "C13": ("property-based fault injection into call histories (one or two malformed arguments), differential twin for state preservation",
          "A valid generated prefix, one malformed call (channel counts, short buffers, mask length) through process_into_buffer / process / process_partial_into_buffer, then a suffix compared bit-for-bit with a twin that never saw the malformed call; expected variant and fields computed by the harness; all seven constructors with each invalid argument class. Exploration level.",
          "multi-fault calls may return any matching error; NaN ratios not asserted; input-shape faults through process_partial_into_buffer not asserted (documented padding)"),
+ "C16": ("differential property-based testing: wrapper paths vs the core call on zero-padded input; Box<dyn VecResampler> vs direct",
+         "Generated histories whose processing goes through process(), process_partial(_into_buffer)(Some/None) and, in half of the cases, through Box<dyn VecResampler>, against a twin executing process_into_buffer on the same frames zero-padded: every step bit-identical (values, counts, getters), empty vectors for masked channels, trailing flush calls included. Exploration level.",
+         "VecResampler has no reset/set_chunk_size"),
  "C17": ("differential property-based testing: the same generated history on the f32 and the f64 instantiation",
          "Generated histories (all seven types, sinc tables up to 512x2048 points) are executed on an f32 and an f64 instance fed the same f32-representable samples: getters, returned counts and frames written must be equal at every step, outputs within 64 eps_f32 x peak. Exploration level.",
          "inputs rounded to f32; benign envelope for fixed-input ratio changes"),
